@@ -30,6 +30,21 @@ Definition dispatch (fid : Z) (v : value) : value :=
     | Some g => VL [enc_g g]
     | None => VL []
     end
+  (* fid 2: ((rows cols) pipeline_A pipeline_B) -> margins after checking A then B on ONE machine
+     (ids are shared between the two pipelines: one id per step name) *)
+  | 2 =>
+    let sl := (as_z (vnth 0 (vnth 0 v)), as_z (vnth 1 (vnth 0 v))) in
+    let pa := map dec_mstep (as_l (vnth 1 v)) in
+    let pb := map dec_mstep (as_l (vnth 2 v)) in
+    match machine_check_margins gen_check_resets_margins gen_margin_tables sl sl 1 g0 pa with
+    | Some ga =>
+      let st := match pa with s :: _ => ms_mcstep s | [] => 1 end in
+      match machine_check_margins gen_check_resets_margins gen_margin_tables sl sl st ga pb with
+      | Some g => VL [enc_g g]
+      | None => VL []
+      end
+    | None => VL [VZ (-2)]
+    end
   | _ => VL [VZ (-1)]
   end.
 
